@@ -6,6 +6,7 @@ import (
 	"strconv"
 
 	"github.com/graphql-go/graphql/language/ast"
+	"github.com/graphql-go/graphql/language/printer"
 )
 
 // normalizeDocument walks the given operation in `doc`, replacing
@@ -357,6 +358,10 @@ type normCtx struct {
 	counter    int
 	synthArgs  map[string]interface{}
 	newVarDefs []*ast.VariableDefinition
+
+	// synthByLiteral maps (type, printed literal) to the synthetic
+	// variable already created for it.
+	synthByLiteral map[string]string
 }
 
 func (c *normCtx) nextName() string {
@@ -468,7 +473,18 @@ func (c *normCtx) tryExtract(value ast.Value, expected Input) (ast.Value, bool) 
 	if !ok {
 		return value, false
 	}
+	// Identical literals of the same type share one synthetic variable:
+	// `{ f(a: 1) f(a: 1) }` must stay mergeable (distinct variables would
+	// make the two occurrences conflict).
+	dedupKey := fmt.Sprintf("%v\x00%v", expected, printer.Print(value))
+	if prev, seen := c.synthByLiteral[dedupKey]; seen {
+		return ast.NewVariable(&ast.Variable{Name: ast.NewName(&ast.Name{Value: prev})}), true
+	}
 	name := c.nextName()
+	if c.synthByLiteral == nil {
+		c.synthByLiteral = map[string]string{}
+	}
+	c.synthByLiteral[dedupKey] = name
 	c.synthArgs[name] = external
 	c.newVarDefs = append(c.newVarDefs, ast.NewVariableDefinition(&ast.VariableDefinition{
 		Variable: ast.NewVariable(&ast.Variable{Name: ast.NewName(&ast.Name{Value: name})}),
